@@ -48,17 +48,6 @@ Definition spec_access (t : ctab) (rules : list rule) (q : req) : bool * N :=
   let perms := fold_right (fun r acc => if (rule_len t r =? top)%N then N.lor (r_perm r) acc else acc) 0%N ms in
   (negb (Nat.eqb (length ms) 0), expand_perms perms).
 
-(* ---- the rule set after a history of inserts and deletes: last write per key wins ---- *)
-Fixpoint last_op (t : ctab) (k : rule) (ops : list (bool * rule)%type) : option (bool * rule)%type :=
-  match ops with
-  | [] => None
-  | op :: ops' =>
-    match last_op t k ops' with
-    | Some x => Some x
-    | None => if key_eqb (norm_rule t (snd op)) k then Some (fst op, norm_rule t (snd op)) else None
-    end
-  end.
-
 (* ---- namespace ---- *)
 Definition spec_can_create (t : ctab) (rules : list rule) (q : req) : bool :=
   let ms := filter (fun r => like_str (so_ci t) (r_d r) (q_d q) && like_str (so_ci t) (r_b r) (q_b q)) rules in
